@@ -202,6 +202,7 @@ type stepLog struct {
 }
 
 type provInst struct {
+	lite      [2]string
 	name      string
 	spec      provSpec
 	issuer    string
@@ -251,6 +252,7 @@ type isoCase struct {
 	devSnap int
 	nProv   int
 	access  string // a live access token of c20 for the userinfo probe
+	sigAlg  jose.SignatureAlgorithm
 }
 
 func (c *isoCase) violation(key, what string, extra map[string]any) {
@@ -315,7 +317,7 @@ func (c *isoCase) step(desc string, self any, grey func(change) bool, act func()
 	for _, ch := range hard {
 		c.violation(ch.Key, fmt.Sprintf("step %q changed %s", desc, ch.Name), map[string]any{"step": len(c.log) - 1, "change": ch})
 	}
-	c.checkOthers(self, desc)
+	c.checkOthers(self, desc, false)
 }
 
 func resClass(res string) string {
@@ -348,6 +350,8 @@ func notFound(r *opdrv.Resp) bool {
 	return r.Status == http.StatusNotFound && strings.HasPrefix(r.Body.String(), "404 page not found")
 }
 
+// fingerprint probes a router. With paths == nil only the discovery document and the CORS answer are taken (the
+// parts that are computed per request from the provider's configuration); with paths every route is probed too.
 func fingerprint(h http.Handler, host string, paths []string) provPrint {
 	fp := provPrint{Disc: map[string]string{}, Served: map[string]bool{}}
 	d := serve(h, "GET", host, oidc.DiscoveryEndpoint, nil, nil)
@@ -374,7 +378,9 @@ func fingerprint(h http.Handler, host string, paths []string) provPrint {
 	}
 	sort.Strings(hs)
 	fp.Preflight = fmt.Sprintf("%d %s", pf.Status, strings.Join(hs, ";"))
-	fp.Keys = serve(h, "GET", host, fp.pathOf("JwksURI", host), nil, nil).Body.String()
+	if paths != nil {
+		fp.Keys = serve(h, "GET", host, fp.pathOf("JwksURI", host), nil, nil).Body.String()
+	}
 	return fp
 }
 
@@ -488,6 +494,7 @@ func (c *isoCase) buildProvider(ps provSpec) {
 	for r := 0; r < 2; r++ {
 		fp := fingerprint(inst.h[r], inst.host, c.paths)
 		inst.fp[r] = fp.String()
+		inst.lite[r] = fingerprint(inst.h[r], inst.host, nil).String()
 		leaks, own := endpointLeaks(inst, r, fp)
 		for range own {
 			c.run.Count("grey", "own-endpoint-option-ineffective")
@@ -525,29 +532,32 @@ func (c *isoCase) newHC(name string, hc *http.Client) *http.Client {
 	if hc != httphelper.DefaultHTTPClient && hc != http.DefaultClient {
 		c.w.httpClient(name, hc)
 	}
-	hi.baseline = c.probe(hc)
+	hi.baseline = c.probe(hc, false)
 	for i, ok := range hi.baseline {
 		if !ok {
-			c.harness(fmt.Sprintf("redirect probe %d fails on a fresh HTTP client %s", i, name))
+			c.harness(fmt.Sprintf("redirect probe %d fails on a fresh HTTP client %s: %v / %v", i, name, probeDiscovery(hc), probeUserinfo(hc, c.access)))
 		}
 	}
 	c.hcs = append(c.hcs, hi)
 	return hc
 }
 
-func (c *isoCase) probe(hc *http.Client) (ok [3]bool) {
+// probe: do discovery / token / userinfo calls through the 307 gateway succeed with this HTTP client? With
+// light only the discovery call is made (after steps that hand no HTTP client to the library) and the other two
+// are reported as still fine.
+func (c *isoCase) probe(hc *http.Client, light bool) (ok [3]bool) {
 	c.lib(func() {
 		ok[0] = probeDiscovery(hc) == nil
+		if light {
+			ok[1], ok[2] = true, true
+			return
+		}
 		_, err := probeToken(hc)
 		ok[1] = err == nil
 		ok[2] = probeUserinfo(hc, c.access) == nil
 	})
 	return ok
 }
-
-var pkPEM = opdrv.ClientKey("c20pk").PKCS1PEM()
-
-const pkKid = "ckey-c20pk"
 
 func (c *isoCase) buildClient(opt string) {
 	kind := opt[:strings.Index(opt, "/")]
@@ -571,14 +581,14 @@ func (c *isoCase) buildClient(opt string) {
 	build := func() error { return nil }
 	switch kind {
 	case "rp":
-		var opts []rp.Option
+		opts := []rp.Option{rp.WithVerifierOpts(rp.WithSupportedSigningAlgorithms(string(c.sigAlg)))}
 		if hc != nil {
 			opts = append(opts, rp.WithHTTPClient(hc))
 		}
 		switch opt {
 		case "rp/pkce-cookie":
 			ch := httphelper.NewCookieHandler([]byte("0123456789abcdef0123456789abcdef"), []byte("0123456789abcdef"), httphelper.WithUnsecure())
-			opts = append(opts, rp.WithPKCE(ch), rp.WithVerifierOpts(rp.WithIssuedAtOffset(5e9)))
+			opts = append(opts, rp.WithPKCE(ch), rp.WithVerifierOpts(rp.WithIssuedAtOffset(5e9), rp.WithSupportedSigningAlgorithms(string(c.sigAlg))))
 			inst.clientID, inst.cookies = "c20", true
 		case "rp/jwt-profile":
 			inst.clientID = "c20pk"
@@ -639,7 +649,7 @@ func (c *isoCase) buildClient(opt string) {
 		}
 		if opt == "te/jwt-shared" {
 			inst.clientID = "c20pk"
-			signer, err := jose.NewSigner(jose.SigningKey{Algorithm: jose.RS256, Key: &jose.JSONWebKey{Key: opdrv.ClientKey("c20pk").Priv, KeyID: pkKid}}, &jose.SignerOptions{})
+			signer, err := jose.NewSigner(jose.SigningKey{Algorithm: jose.ES256, Key: &jose.JSONWebKey{Key: pkKey.Priv, KeyID: pkKid}}, &jose.SignerOptions{})
 			must(err, "signer")
 			build = func() (err error) {
 				inst.te, err = tokenexchange.NewTokenExchangerJWTProfile(ctxBG, opIssuer, "c20pk", signer, opts...)
@@ -666,7 +676,7 @@ func (c *isoCase) buildClient(opt string) {
 	case "keyset":
 		build = func() error {
 			inst.ks = rp.NewRemoteKeySet(hc, opIssuer+"/keys")
-			inst.verifier = rp.NewIDTokenVerifier(opIssuer, "c20", inst.ks)
+			inst.verifier = rp.NewIDTokenVerifier(opIssuer, "c20", inst.ks, rp.WithSupportedSigningAlgorithms(string(c.sigAlg)))
 			return nil
 		}
 	}
@@ -815,12 +825,18 @@ func (c *isoCase) call(i *cliInst, api string) {
 			}
 		case "exchange":
 			t := c.freshTokens(i.clientID)
-			_, err = teExchange(i.te, t.access, oidc.AccessTokenType)
+			sub, typ := subjectOf(t, false, c.idx)
+			_, err = teExchange(i.te, sub, typ, oidc.AccessTokenType)
 		case "token":
 			_, err = tsToken(i.ts)
 		}
 		c.run.Observed("iso:api:" + api)
 		if err != nil {
+			e := errStr(err)
+			if len(e) > 90 {
+				e = e[:90]
+			}
+			c.run.Count("iso_call_errors", i.opt+" "+api+": "+e)
 			return "error: " + errStr(err)
 		}
 		c.run.Observed("iso:api-ok:" + api)
@@ -891,7 +907,7 @@ func (c *isoCase) srvOp(opName string) {
 		case "jwt_bearer":
 			resp = c.s.token(url.Values{"grant_type": {string(oidc.GrantTypeBearer)}, "assertion": {assertion("c20pk", c.s.issuer)}, "scope": {"openid"}}, opdrv.NoAuth())
 		case "token_exchange":
-			resp = c.s.token(url.Values{"grant_type": {string(oidc.GrantTypeTokenExchange)}, "subject_token": {pre.access}, "subject_token_type": {string(oidc.AccessTokenType)},
+			resp = c.s.token(url.Values{"grant_type": {string(oidc.GrantTypeTokenExchange)}, "subject_token": {pre.refresh}, "subject_token_type": {string(oidc.RefreshTokenType)},
 				"requested_token_type": {string(oidc.AccessTokenType)}}, c.s.authFor(cl))
 		case "discovery":
 			resp = c.s.get(oidc.DiscoveryEndpoint, nil, nil)
@@ -918,25 +934,51 @@ func (c *isoCase) srvOp(opName string) {
 
 // ---------- invariants of the other instances ----------
 
-func (c *isoCase) checkOthers(self any, desc string) {
+// checkOthers: after a step every instance other than the one the step was about must still answer and be
+// configured as when it was built. Between steps the cheap part of a provider's fingerprint is taken (discovery
+// document and CORS answer: what is computed per request from its configuration); full (at the end of a scenario
+// and after every construction of a provider) re-probes every route as well.
+func (c *isoCase) checkOthers(self any, desc string, full bool) {
 	last := &c.log[len(c.log)-1]
 	for _, p := range c.provs {
 		if any(p) == self {
 			continue
 		}
 		for r := 0; r < 2; r++ {
-			fp := fingerprint(p.h[r], p.host, c.paths)
-			if s := fp.String(); s != p.fp[r] {
-				leaks, _ := endpointLeaks(p, r, fp)
-				key := "C20:isolation:provider-behaviour"
-				what := fmt.Sprintf("after step %q the provider %s/%s no longer answers as when it was built", desc, p.name, opdrv.RouterNames[r])
-				if len(leaks) > 0 {
+			paths, builtStr := []string(nil), &p.lite[r]
+			if full {
+				paths, builtStr = c.paths, &p.fp[r]
+			}
+			fp := fingerprint(p.h[r], p.host, paths)
+			s := fp.String()
+			if s == *builtStr {
+				continue
+			}
+			leaks, _ := endpointLeaks(p, r, fp)
+			var built provPrint
+			_ = json.Unmarshal([]byte(*builtStr), &built)
+			key := "C20:isolation:provider-behaviour"
+			what := fmt.Sprintf("after step %q the provider %s/%s no longer answers as when it was built", desc, p.name, opdrv.RouterNames[r])
+			for _, f := range epFields {
+				if built.Disc[f] != fp.Disc[f] {
 					key = "C20:isolation:DefaultEndpoints"
-					what += ": " + leaks[0]
+					leaks = append(leaks, fmt.Sprintf("%s/%s advertised %s=%q when built, now %q", p.name, opdrv.RouterNames[r], epDisc[f], built.Disc[f], fp.Disc[f]))
 				}
-				last.Leaks = append(last.Leaks, what)
-				c.violation(key, what, map[string]any{"step": len(c.log) - 1, "built": json.RawMessage(p.fp[r]), "now": fp, "leaks": leaks})
-				p.fp[r] = s // report each drift once
+			}
+			for path, was := range built.Served {
+				if fp.Served[path] != was {
+					key = "C20:isolation:DefaultEndpoints"
+					leaks = append(leaks, fmt.Sprintf("%s/%s: route %q served=%v when built, now %v", p.name, opdrv.RouterNames[r], path, was, fp.Served[path]))
+				}
+			}
+			if len(leaks) > 0 {
+				what += ": " + leaks[len(leaks)-1]
+			}
+			last.Leaks = append(last.Leaks, what)
+			c.violation(key, what, map[string]any{"step": len(c.log) - 1, "built": built, "now": fp, "leaks": leaks})
+			*builtStr = s // report each drift once
+			if full {
+				p.lite[r] = fingerprint(p.h[r], p.host, nil).String()
 			}
 		}
 	}
@@ -953,7 +995,7 @@ func (c *isoCase) checkOthers(self any, desc string) {
 	}
 	names := [3]string{"discovery", "token", "userinfo"}
 	for _, h := range c.hcs {
-		now := c.probe(h.c)
+		now := c.probe(h.c, strings.HasPrefix(desc, "prov "))
 		for k := range now {
 			if h.baseline[k] && !now[k] {
 				what := fmt.Sprintf("after step %q a %s call through HTTP client %s no longer follows the provider's 307 (it did before)", desc, names[k], h.name)
@@ -1004,7 +1046,11 @@ func runScenario(run *ev.Run, idx int, specs []spec) {
 		run.HarnessBug("package state cannot be restored to its pristine value")
 	}
 	c := &isoCase{run: run, idx: idx, specs: specs, paths: universe(specs)}
-	b, err := newBackend(backendOpt{caps: vstore.Full, shared: true, sigKey: keys.Get("op-sig-1", jose.RS256)})
+	c.sigAlg = jose.ES256 // ECDSA stays fast under the race detector; every 7th scenario signs with RSA
+	if idx%7 == 3 {
+		c.sigAlg = jose.RS256
+	}
+	b, err := newBackend(backendOpt{caps: vstore.Full, shared: true, sigKey: keys.Get("op-sig-c20", c.sigAlg)})
 	if err != nil {
 		run.HarnessBug("backend: " + err.Error())
 		return
@@ -1020,6 +1066,7 @@ func runScenario(run *ev.Run, idx int, specs []spec) {
 	for r := 0; r < 2; r++ {
 		fp := fingerprint(bp.h[r], bp.host, c.paths)
 		bp.fp[r] = fp.String()
+		bp.lite[r] = fingerprint(bp.h[r], bp.host, nil).String()
 		if leaks, _ := endpointLeaks(bp, r, fp); len(leaks) > 0 {
 			run.HarnessBug("backend provider does not serve the default endpoints in a pristine process: " + leaks[0])
 			return
@@ -1049,6 +1096,9 @@ func runScenario(run *ev.Run, idx int, specs []spec) {
 			c.srvOp(s.API)
 		}
 	}
+	if len(c.log) > 0 {
+		c.checkOthers(nil, "end of scenario", true)
+	}
 	if len(mux.Panics()) > 0 {
 		for _, pi := range mux.Panics() {
 			if pi.InRepo {
@@ -1062,26 +1112,43 @@ func runScenario(run *ev.Run, idx int, specs []spec) {
 	restoreGlobals()
 }
 
-// scenarioSpecs maps a case index to its step list: first the complete enumerations of construction orders,
-// then seeded random mixes.
+// quickProv / the stride over client pairs: the quick tier enumerates every ordered pair of a 7-element sub-catalogue
+// of provider option sets and every 3rd ordered pair of client-side option sets; thorough enumerates every ordered
+// pair of both catalogues and every ordered triple of provider option sets.
+var quickProv = []int{0, 1, 2, 8, 9, 10, 11}
+
+func isoCounts(run *ev.Run) (provPairs, cliPairs, provTriples int) {
+	np, nc := len(provCatalogue), len(cliCatalogue)
+	if run.Tier == ev.Thorough {
+		return np * np, nc * nc, np * np * np
+	}
+	return len(quickProv) * len(quickProv), (nc*nc + 2) / 3, 0
+}
+
+// scenarioSpecs maps a case index to its step list: first the enumerations of construction orders, then seeded
+// random mixes.
 func scenarioSpecs(run *ev.Run, idx int) []spec {
-	np := len(provCatalogue)
-	nc := len(cliCatalogue)
+	np, nc := len(provCatalogue), len(cliCatalogue)
 	prov := func(i int) spec { p := provCatalogue[i]; return spec{Kind: "prov", Prov: &p} }
+	pp, cp, pt := isoCounts(run)
+	thorough := run.Tier == ev.Thorough
 	switch {
-	case idx < np*np: // every ordered pair of provider option sets, then a provider with defaults
+	case idx < pp: // ordered pair of provider option sets, then a provider with defaults
 		a, b := idx/np, idx%np
+		if !thorough {
+			a, b = quickProv[idx/len(quickProv)], quickProv[idx%len(quickProv)]
+		}
 		return []spec{prov(a), prov(b), prov(0)}
-	case idx < np*np+nc*nc: // every ordered pair of client-side option sets, each then used once (second first)
-		k := idx - np*np
+	case idx < pp+cp: // ordered pair of client-side option sets, each then used (second first)
+		k := idx - pp
+		if !thorough {
+			k = (k*3 + int(run.Seed)%3) % (nc * nc)
+		}
 		a, b := k/nc, k%nc
 		return []spec{{Kind: "cli", Cli: cliCatalogue[a]}, {Kind: "cli", Cli: cliCatalogue[b]}, {Kind: "call", Target: 1}, {Kind: "call", Target: 0}, {Kind: "call", Target: 1, API: "userinfo"}}
-	}
-	if run.Tier == ev.Thorough {
-		k := idx - np*np - nc*nc
-		if k < np*np*np { // every ordered triple of provider option sets
-			return []spec{prov(k / (np * np)), prov(k / np % np), prov(k % np)}
-		}
+	case idx < pp+cp+pt: // ordered triple of provider option sets
+		k := idx - pp - cp
+		return []spec{prov(k / (np * np)), prov(k / np % np), prov(k % np)}
 	}
 	r := run.CaseRand(2, idx)
 	n := 3 + r.IntN(6)
